@@ -19,7 +19,7 @@ class C06(PureCheck):
     rule = ("Layouts(R,L) = every run list of <=R runs of length 0..L over {a,b} x {plain, red, bold+on_blue} "
             "(empty runs and the run-less value included); every slice bound pair in [-len-2,len+2] u {None}, every "
             "integer index in the same range, every operand pair of a layout pool for + (FmtStr+FmtStr, FmtStr+str, "
-            "str+FmtStr), repeat counts 0..3, joins of <=3 items; quick: R=2,L=2 complete + sampled R=3; thorough: R=3,L=2 "
+            "str+FmtStr), repeat counts 0..3, joins of <=3 items (separators of one run and of several runs sharing nothing / something); quick: R=2,L=2 complete + sampled R=3; thorough: R=3,L=2 "
             "complete. distinct_nontrivial = distinct (op, run-length profile, bounds/result class) with a multi-run "
             "or formatted operand")
     exhaustive = {"quick": False, "thorough": True}
@@ -60,6 +60,11 @@ class C06(PureCheck):
             for y in small[::3]:
                 yield {"op": "add", "x": F(x), "y": F(y), "aug": 1}
         seps = [l for l in L2 if len(l) <= 1 or vlen(l) <= 1][:40]
+        # separators made of several runs: sharing nothing, sharing something, with an empty run, all plain
+        seps += [l for l in L2 if len(l) == 2 and vlen(l) >= 2][::7][:40]
+        seps += [[[[44], [2, 0, 0, 0, 0, 0, 0, 0]], [[32], [0] * 8]], [[[60], [2, 0, 0, 0, 0, 0, 0, 0]], [[62], [5, 0, 0, 0, 0, 0, 0, 0]]],
+                 [[[45], [0] * 8], [[45], [0, 3, 0, 0, 0, 0, 0, 0]]], [[[44], [2, 0, 2, 0, 0, 0, 0, 0]], [[32], [2, 0, 0, 0, 0, 0, 0, 0]]],
+                 [[[44], [0] * 8], [[32], [0] * 8]], [[[44], [2, 0, 0, 0, 0, 0, 0, 0]], [[], [0, 5, 0, 0, 0, 0, 0, 0]], [[32], [0] * 8]]]
         items_pool = [F(l) for l in small[:30]] + [S([]), S([97]), S([98, 98])]
         nj = 4000 if tier == "quick" else 60000
         for k in range(nj):
